@@ -344,10 +344,10 @@ static int runFile(Ctx* c, const FileSpec& f) {
   if (g1.result != RESULT_OK) {
     string e = g1.error;
     size_t p = e.find("ERR:");
-    string code = p == string::npos ? "error" : e.substr(p);
+    string code = p == string::npos ? "error" : e.substr(p + 5);
+    code = code.substr(0, code.find(','));   // result code only, not the description (which contains the text)
     string s;
     for (char ch : code) s += isalnum((unsigned char)ch) ? ch : '-';
-    if (s.size() > 40) s.resize(40);
     report(c, string("C19/reload-failed/") + mcls + "/" + (f.fields.empty() ? "nofield" : FKINDS[f.fields[0].kind].cls) + "/" + s, "the dump of a loaded definition set does not load: " + g1.error, cs);
     return 1;
   }
